@@ -92,6 +92,42 @@ package core
 //@      !anyGroup(target.Labels, target.Test != nil, state.Exclude))
 
 // ---------------------------------------------------------------------------------------------
+// Cycle detection (C06): every reported cycle is genuine, for all graphs and all visiting orders.
+//
+// The dependency relation is whatever Dependencies() returns for a target (a function of the target).
+//@ assume func (BuildTarget).Dependencies
+//@   pure
+//@ assume func (BuildGraph).AllTargets
+//@   pure
+//
+// Graph well-formedness (assumed): resolved dependencies and registered targets are never nil.
+//@ axiom deps_nonnil: forall a *BuildTarget, i int :: 0 <= i && i < len(a.Dependencies()) ==> a.Dependencies()[i] != nil
+//@ axiom targets_nonnil: forall g *BuildGraph, i int :: 0 <= i && i < len(g.AllTargets()) ==> g.AllTargets()[i] != nil
+//
+//@ spec depOf(a *BuildTarget, b *BuildTarget) bool = exists i int :: 0 <= i && i < len(a.Dependencies()) && a.Dependencies()[i] == b
+//@ spec chain(c []*BuildTarget) bool = forall i int :: 0 <= i && i + 1 < len(c) ==> depOf(c[i], c[i+1])
+//
+// visit(target): a nil result leaves the set of partially visited targets as it was; a non-nil result is a
+// dependency chain that either is closed already (done) or starts at target and ends in a target that was
+// on the caller's stack (partial) when visit was entered.
+//@ func (cycleDetector).Check.lit#1
+//@   requires c != nil && target != nil
+//@   requires distinct: partial != complete
+//@   modifies partial complete
+//@   invariant "range target.Dependencies()" stack: forall t *BuildTarget :: in(t, partial) == (old(in(t, partial)) || t == target)
+//@   invariant "range target.Dependencies()" fresh: !old(in(target, partial))
+//@   ensures nil_keeps_stack [C06]: result0 == nil ==> forall t *BuildTarget :: in(t, partial) == old(in(t, partial))
+//@   ensures is_chain [C06]: result0 != nil ==> len(result0) >= 1 && chain(result0)
+//@   ensures open [C06]: result0 != nil && !result1 ==> result0[0] == target && old(in(result0[len(result0) - 1], partial))
+//@   ensures closed [C06]: result0 != nil && result1 ==> depOf(result0[len(result0) - 1], result0[0])
+//
+//@ func (cycleDetector).Check
+//@   requires c != nil
+//@   invariant "range c.graph.AllTargets()" empty_stack: forall t *BuildTarget :: !in(t, partial)
+//@   ensures genuine [C06]: result != nil ==> len(result.Cycle) >= 1 && chain(result.Cycle) && \
+//@      depOf(result.Cycle[len(result.Cycle) - 1], result.Cycle[0])
+
+// ---------------------------------------------------------------------------------------------
 // Declared output hashes (C35)
 //
 //@ spec unprefixed(h string) string = ite(strings.LastIndexByte(h, ':') != -1, \
